@@ -294,10 +294,43 @@ Section Tree.
   (** restore + nnx.update(fresh_module, restored_state) *)
   Definition orbax_reload (file : tree) (fresh_m : nmodule) : option nmodule :=
     option_map (nnx_update fresh_m) (orbax_restore file (nnx_state fresh_m)).
-  (** restore_checkpoint(path, model): PyTreeCheckpointer().restore(path) without a
-      target returns the stored tree; [nnx.merge(graphdef(model), state)]. *)
-  Definition restore_checkpoint (file : tree) (model : nmodule) : nmodule :=
-    nnx_merge (fst (nnx_split model)) file.
+  (** restore_checkpoint(path, model) (after the repair): PyTreeCheckpointer().restore(path, item=state(model))
+      fills the model's own state structure with the stored leaves; [nnx.merge(graphdef(model), state)]. *)
+  Definition restore_checkpoint (file : tree) (model : nmodule) : option nmodule :=
+    option_map (nnx_merge (fst (nnx_split model))) (orbax_restore file (nnx_state model)).
+
+  (** Before the repair: restore(path) without a target returns nested dictionaries whose list
+      positions have become *string* keys; nnx.merge then pairs the graph's leaves (numeric
+      order) with the dictionary's leaves in sorted-key order, i.e. by the decimal strings. *)
+  Fixpoint digits_fuel (fuel n : nat) (acc : list nat) : list nat :=
+    match fuel with
+    | 0 => acc
+    | S f => if Nat.ltb n 10 then n :: acc else digits_fuel f (Nat.div n 10) (Nat.modulo n 10 :: acc)
+    end.
+  Definition digits (n : nat) : list nat := digits_fuel (S n) n [].
+  Fixpoint lex_ltb (a b : list nat) : bool :=
+    match a, b with
+    | [], [] => false
+    | [], _ :: _ => true
+    | _ :: _, [] => false
+    | x :: a', y :: b' => if Nat.ltb x y then true else if Nat.ltb y x then false else lex_ltb a' b'
+    end.
+  Fixpoint key_ltb (p q : path) : bool :=
+    match p, q with
+    | [], [] => false
+    | [], _ :: _ => true
+    | _ :: _, [] => false
+    | x :: p', y :: q' =>
+        if lex_ltb (digits x) (digits y) then true else if lex_ltb (digits y) (digits x) then false else key_ltb p' q'
+    end.
+  Fixpoint insert_key (e : path * V) (t : tree) : tree :=
+    match t with
+    | [] => [e]
+    | f :: r => if key_ltb (fst e) (fst f) then e :: t else f :: insert_key e r
+    end.
+  Definition string_sort (t : tree) : tree := fold_right insert_key [] t.
+  Definition restore_untargeted (file : tree) (model : nmodule) : nmodule :=
+    nnx_merge (fst (nnx_split model)) (combine (map fst (nnx_state model)) (map snd (string_sort file))).
 End Tree.
 Arguments tree : clear implicits.
 Arguments nmodule : clear implicits.
